@@ -304,7 +304,9 @@ func (g *docGen) value(t T, depth int) any {
 					hasFloat = true
 				}
 			}
-			if hasFloat {
+			// a union written as a list of type names may be held as `any` (a
+			// float64 in Go): same rule
+			if hasFloat || t.TypeList {
 				// an integer in a union that also has a float branch may be held
 				// as a float: only values both represent exactly are used
 				return json.Number(strconv.Itoa(rapid.IntRange(-1000, 1000).Draw(g.t, "smallint")))
